@@ -98,7 +98,8 @@ def _run_obs(js, eng_, obs, twin, case_fn):
   for nm, f, opt in obs:
     js.r['obligations'] += 1
     if isinstance(f, (bool, np.bool_)):
-      verdict, model = ('unsat', None) if f else ('sat', None)
+      verdict, model = ('unsat', None) if f else ('sat', eng_.witness(
+          timeout_ms=20000))
     else:
       verdict, model = nstubs.prove(
           eng_, f, extra=list(opt.get('extra', ())), drop_sqrt=opt.get(
